@@ -30,8 +30,11 @@ type engNLP struct {
 	DocToks  [][][]int `json:"doc_toks"` // TF-IDF tokenizer output for each command's text (command, description, keywords)
 	QToks    [][]int   `json:"q_toks"`   // ... and for the query
 	LogT     []string  `json:"logt"`     // logt[dc] = math.Log(N / dc), dc = 0..N
-	Sig      [][]int   `json:"sig"`      // the whole analysis flattened: keywords | enhanced | actions | targets | intent
-	Sig2     [][]int   `json:"sig2"`     // the same from a repeated analysis (the first of 8 repetitions that differs, else the last)
+	Words    [][]int   `json:"words"`
+	QLower   []int     `json:"q_lower"`
+	Hints    [][]int   `json:"hints"`
+	Sig      [][]int   `json:"sig"`  // the whole analysis flattened: keywords | enhanced | actions | targets | intent
+	Sig2     [][]int   `json:"sig2"` // the same from a repeated analysis (the first of 8 repetitions that differs, else the last)
 }
 
 type engCase struct {
@@ -56,6 +59,42 @@ type engCase struct {
 	Recased []int             `json:"recased"`
 	Tokens  [][]int           `json:"tokens"` // normalizeAndTokenize(query)
 	Note    string            `json:"note,omitempty"`
+	NLPTab  *engTables        `json:"nlp_tables,omitempty"` // word tables of the query processor (first case of a run only)
+}
+
+type engPair struct {
+	K []int   `json:"k"`
+	V [][]int `json:"v"`
+}
+
+type engTables struct {
+	Actions  []engPair `json:"actions"`
+	Targets  []engPair `json:"targets"`
+	Synonyms []engPair `json:"synonyms"`
+}
+
+func engTab(m map[string][]string) []engPair {
+	keys := make([]string, 0, len(m))
+	for k := range m {
+		keys = append(keys, k)
+	}
+	sortStrings(keys)
+	out := []engPair{}
+	for _, k := range keys {
+		out = append(out, engPair{K: ints(k), V: intsList(m[k])})
+	}
+	return out
+}
+
+var engTablesSent bool
+
+func engNLPTables() *engTables {
+	if engTablesSent {
+		return nil
+	}
+	engTablesSent = true
+	a, t, sy := nlp.VerifTables()
+	return &engTables{Actions: engTab(a), Targets: engTab(t), Synonyms: engTab(sy)}
 }
 
 func recase(r *rand.Rand, q string) string {
@@ -123,6 +162,7 @@ func engOracles(c *engCase, db *database.Database, q string) {
 		l = append(l, "|", string(p.Intent))
 		return intsList(l)
 	}
+	c.NLP.Words, c.NLP.QLower, c.NLP.Hints = intsList(nlp.VerifWords(q)), ints(strings.ToLower(q)), intsList(pq.VerifHints())
 	c.NLP.Sig = sig(pq)
 	c.NLP.Sig2 = c.NLP.Sig
 	for k := 0; k < 8; k++ {
@@ -168,6 +208,7 @@ func engRun(c *engCase, cmds []database.Command, dir string) {
 		return
 	}
 	c.DB = dumpDB(db)
+	c.NLPTab = engNLPTables()
 	q := fromInts(c.Query)
 	engOracles(c, db, q)
 	if c.Note != "" {
